@@ -13,7 +13,7 @@ RULE = (
     "script argument; selectors are chains of depth 1-4 with captures at every level, sibling sub-selectors nested up "
     "to depth 2, aliases, focus at any position, rendered with '!' or '>' chains.  Enumerated part: all call trees with "
     "<= N activations over 3 functions x systematic chain selectors; random part: trees of up to 12 (quick) / 16 "
-    "(thorough) activations.  Events from BaseOverlay(Immediate) / probing() are compared with an independent matcher "
+    "(thorough) activations; 30% of the random pairs run together with a focus-free companion rule whose handler raises at the end of some calls (the caller goes on).  Events from BaseOverlay(Immediate) / probing() are compared with an independent matcher "
     "(one event per order-preserving embedding of the selector path into the ancestor chain) as a multiset per focus "
     "binding plus exact order across bindings.  non-trivial = the reference expects >= 1 event; distinct = distinct "
     "(tree, selector) pairs; `embeddings_ge2` counts pairs where some binding has >= 2 embeddings."
@@ -29,8 +29,15 @@ MIN_DECIDING = {"quick": 1500, "thorough": 50000}
 SHARD_TIMEOUT = {"quick": 900, "thorough": 7200}
 
 
-def observe(ns, s, tree, fkey, mode):
-    """Run tree under selector s; return (got {focusval: [events]}, order [focusvals])."""
+class Reject(ValueError):
+    """Raised by the handler of a companion total rule when an outermost call of its function ends;
+    the family's callers swallow ValueError, so the run goes on in the caller."""
+
+
+def observe(ns, s, tree, fkey, mode, companion=None):
+    """Run tree under selector s; return (got {focusval: [events]}, order [focusvals]).
+    companion = (function index, every): a focus-free rule on that function is active at the same
+    time and its handler raises on every `every`-th record."""
     from ptera import probing
     from ptera.interpret import Immediate
     from ptera.overlay import BaseOverlay, autotool
@@ -39,7 +46,17 @@ def observe(ns, s, tree, fkey, mode):
     got = collections.defaultdict(list)
     order = []
     ns["reset"]()
+    nrec = [0]
+
+    def raiser(d):
+        nrec[0] += 1
+        if nrec[0] % companion[1] == 0:
+            raise Reject(nrec[0])
+
+    ctext = f"F{companion[0]}(v)" if companion else None
     if mode == "overlay":
+        from ptera.interpret import Total
+
         selobj = select(s, env=ns)
 
         def trig(d):
@@ -47,20 +64,40 @@ def observe(ns, s, tree, fkey, mode):
             got[dd[fkey]].append(dd)
             order.append(dd[fkey])
 
+        rules = [Immediate(selobj, trigger=trig)]
+        csel = None
+        if companion:
+            csel = select(ctext, env=ns)
+            autotool(csel)
+            rules.append(Total(csel, close=raiser))
         autotool(selobj)
         try:
-            with BaseOverlay(Immediate(selobj, trigger=trig)):
+            with BaseOverlay(*rules):
                 CT.run_tree(ns, tree)
         finally:
             autotool(selobj, undo=True)
+            if csel is not None:
+                autotool(csel, undo=True)
     else:
-        with probing(s, env=ns) as prb:
+        import contextlib
+
+        with contextlib.ExitStack() as stack:
+            if companion:
+                cp = stack.enter_context(probing(ctext, env=ns, raw=True))
+                cp.subscribe(raiser)
+            prb = stack.enter_context(probing(s, env=ns))
+
             def sub(dd):
                 dd = dict(dd)
                 got[dd[fkey]].append(dd)
                 order.append(dd[fkey])
             prb.subscribe(sub)
             CT.run_tree(ns, tree)
+    if companion:
+        got_n = nrec[0]
+        exp_n = sum(1 for e in ns["LOG"] if e[0] == "enter" and e[3] == companion[0])
+        if got_n != exp_n:
+            raise AssertionError(f"companion total rule F{companion[0]}(v) delivered {got_n} records for {exp_n} calls")
     return got, order
 
 
@@ -70,7 +107,7 @@ def check_pair(ns, tree, sel, fpath, fvar, chain, mode, res, case):
     fkey = CT.alias(fvar, tuple(fpath))
     res.evaluations += 1
     try:
-        got, order = observe(ns, s, tree, fkey, mode)
+        got, order = observe(ns, s, tree, fkey, mode, case.get("companion"))
     except Exception as e:
         res.violation(case, "exception while observing: " + common.fmt_exc(e))
         return
@@ -142,6 +179,9 @@ def run_shard(spec):
         chain = rnd.random() < 0.5
         mode = "overlay" if rnd.random() < 0.5 else "probing"
         case = {"part": "rand", "nf": nf, "tree": tree, "sel": sel, "fpath": fpath, "fvar": fvar, "chain": chain, "mode": mode}
+        if rnd.random() < 0.3:
+            case["companion"] = [sel[1] if rnd.random() < 0.6 else rnd.randrange(nf), rnd.randint(1, 3)]
+            res.count("pairs_with_raising_companion_rule")
         r = check_pair(ns, tree, sel, fpath, fvar, chain, mode, res, case)
         if r and i % 500 == 0:
             res.sample({"tree": tree, "selector": r[0], "events_expected": r[1]})
